@@ -13,7 +13,6 @@ import (
 	"os"
 	"os/exec"
 	"path/filepath"
-	"runtime/pprof"
 	"sort"
 	"strconv"
 	"strings"
@@ -27,11 +26,6 @@ import (
 )
 
 func main() {
-	if pf := os.Getenv("C17_PROF"); pf != "" {
-		f, _ := os.Create(pf)
-		pprof.StartCPUProfile(f)
-		defer pprof.StopCPUProfile()
-	}
 	Register("lbo", runLbo)
 	Register("json", runJSON)
 	Register("canon", runCanon)
